@@ -1,4 +1,5 @@
 import Marwood.Text
+import Marwood.Datum
 /-!
 Wire helpers for the line protocol. Text travels as comma-separated decimal code points
 (`-` for the empty text) so that no escaping is needed.
@@ -15,5 +16,91 @@ def decText (s : String) : Option Text :=
 
 def encText (cs : Text) : String :=
   if cs.isEmpty then "-" else ",".intercalate (cs.map fun c => toString c.toNat)
+
+
+/-! ## Datum codec: space-separated prefix tokens
+`b0 b1 c<cp> nil fix:<int> big:<int> rat:<n>/<d> flo:<16 hex> pair <a> <d> str:<text> sym:<text>
+ vec<k> e1 … ek cont macro proc:<text> proc undef void` -/
+
+def hexDigit (n : Nat) : Char := if n < 10 then Char.ofNat (48 + n) else Char.ofNat (87 + n)
+
+def toHex16 (n : Nat) : String :=
+  String.ofList ((List.range 16).reverse.map fun i => hexDigit ((n >>> (4*i)) % 16))
+
+def hexVal (c : Char) : Option Nat :=
+  if '0' ≤ c ∧ c ≤ '9' then some (c.toNat - 48)
+  else if 'a' ≤ c ∧ c ≤ 'f' then some (c.toNat - 87)
+  else if 'A' ≤ c ∧ c ≤ 'F' then some (c.toNat - 55)
+  else none
+
+def parseHex (s : String) : Option Nat :=
+  if s.isEmpty then none else s.toList.foldlM (fun acc c => (hexVal c).map (acc * 16 + ·)) 0
+
+def encNum : Num → String
+  | .fix n => s!"fix:{n}"
+  | .big n => s!"big:{n}"
+  | .rat n d => s!"rat:{n}/{d}"
+  | .flo f => "flo:" ++ toHex16 f.bits
+
+def decNum (w : String) : Option Num :=
+  if w.startsWith "fix:" then (w.drop 4).toString.toInt?.map .fix
+  else if w.startsWith "big:" then (w.drop 4).toString.toInt?.map .big
+  else if w.startsWith "rat:" then
+    match (w.drop 4).toString.splitOn "/" with
+    | [a, b] => do let n ← a.toInt?; let d ← b.toInt?; pure (.rat n d)
+    | _ => none
+  else if w.startsWith "flo:" then (parseHex (w.drop 4).toString).map fun b => .flo ⟨b⟩
+  else none
+
+partial def encDatum : Datum → String
+  | .bool true => "b1"
+  | .bool false => "b0"
+  | .char c => s!"c{c.toNat}"
+  | .nil => "nil"
+  | .num n => encNum n
+  | .pair a d => "pair " ++ encDatum a ++ " " ++ encDatum d
+  | .str s => "str:" ++ encText s
+  | .sym s => "sym:" ++ encText s
+  | .vec e =>
+    let xs := e.listElems
+    s!"vec{xs.length}" ++ String.join (xs.map fun x => " " ++ encDatum x)
+  | .continuation => "cont"
+  | .macro_ => "macro"
+  | .procedure (some d) => "proc:" ++ encText d
+  | .procedure none => "proc"
+  | .undefined => "undef"
+  | .void => "void"
+
+/-- decode one datum from the front of a token list -/
+partial def decDatum : List String → Option (Datum × List String)
+  | [] => none
+  | w :: ws =>
+    if w == "b1" then some (.bool true, ws)
+    else if w == "b0" then some (.bool false, ws)
+    else if w == "nil" then some (.nil, ws)
+    else if w == "cont" then some (.continuation, ws)
+    else if w == "macro" then some (.macro_, ws)
+    else if w == "proc" then some (.procedure none, ws)
+    else if w == "undef" then some (.undefined, ws)
+    else if w == "void" then some (.void, ws)
+    else if w == "pair" then do
+      let (a, ws) ← decDatum ws
+      let (d, ws) ← decDatum ws
+      pure (.pair a d, ws)
+    else if w.startsWith "str:" then (decText (w.drop 4).toString).map fun t => (.str t, ws)
+    else if w.startsWith "sym:" then (decText (w.drop 4).toString).map fun t => (.sym t, ws)
+    else if w.startsWith "proc:" then (decText (w.drop 5).toString).map fun t => (.procedure (some t), ws)
+    else if w.startsWith "vec" then do
+      let k ← (w.drop 3).toString.toNat?
+      let rec go (k : Nat) (ws : List String) (acc : List Datum) : Option (List Datum × List String) :=
+        match k with
+        | 0 => some (acc.reverse, ws)
+        | k+1 => do let (x, ws) ← decDatum ws; go k ws (x :: acc)
+      let (xs, ws) ← go k ws []
+      pure (Datum.vecOfList xs, ws)
+    else if w.startsWith "c" then do
+      let n ← (w.drop 1).toString.toNat?
+      if h : n.isValidChar then pure (.char (Char.ofNatAux n h), ws) else none
+    else (decNum w).map fun n => (.num n, ws)
 
 end Marwood.Wire
